@@ -196,6 +196,7 @@ func ixBodies(pkgs map[string]*pkgInfo) {
 		"origins.splitAtCommonSuffix", "headers.TrimOWS", "headers.trimLeftOWS", "headers.trimRightOWS",
 		"headers.cutAtComma", "headers.First", "origins.insert", "util.MakeASCIISet", "util.(*ASCIISet).Contains", "headers.Check", "util.(SortedSet).IndexAfter", "origins.Parse", "origins.(*Tree).Contains", "origins.(*node).contains",
 		"origins.(*Tree).Insert", "origins.(*node).add", "origins.(*node).upsertEdge", "origins.deleteSameSign", "origins.(*node).elems", "origins.(*Tree).Elems",
+		"origins.parseHostPattern", "origins.(*HostPattern).hostOnly", "origins.peekKind",
 	}
 	found := map[string]string{}
 	for _, p := range pkgs {
